@@ -238,6 +238,22 @@ def run_case(case, ctx):
         parts_ = case["s"].lstrip().split(" ", 1)
         if r == "rejected" and ref_parse_number(parts_[0]) not in (None, "skip"):
             ctx.nontrivial()
+            if case.get("explicit") is None and len(parts_) > 1 and parts_[1].strip():
+                # a number followed by an unknown symbol: a type's own constructor must refuse it as well (it may
+                # only fall back to its reference unit when there is no symbol at all)
+                ctx.label("unknown_symbol/typed_constructor")
+                for cls_ in (pre.Length, pre.Mass, pre.Duration):
+                    try:
+                        q2 = cls_(case["s"])
+                    except QuantityError:
+                        continue
+                    except Exception as exc:  # noqa: BLE001
+                        ctx.viol(f"text/typed/raises/{type(exc).__name__}", f"{cls_.__name__}({case['s']!r}) raised "
+                                 f"{type(exc).__name__}: {exc}; unknown symbols must raise QuantityError")
+                        break
+                    ctx.viol("text/typed/unknown_symbol_accepted", f"{cls_.__name__}({case['s']!r}) = {q2!r} although "
+                             f"Quantity({case['s']!r}) is rejected (unknown symbol)")
+                    break
         elif r == "rejected":
             ctx.nontrivial(len(case["s"]) > 2)
         return
